@@ -396,6 +396,8 @@ def set_inputs(engine, rows: list, setter: str = "vars") -> None:
             iv.value = np.array(arr[0, c])  # a 0-d array, what fl.scalar(x) returns: a *mutable* scalar
         elif setter == "npfloat":
             iv.value = np.float64(arr[0, c])
+        elif setter == "pyint" and np.isfinite(arr[0, c]) and float(arr[0, c]).is_integer():
+            iv.value = int(arr[0, c])  # users write `variable.value = 1`
         else:
             iv.value = float(arr[0, c])
 
